@@ -128,7 +128,9 @@ def run(tier):
             continue
         det = {"missing": missing[:12], "unexpected": unexpected[:12], "expected": sorted(E)[:40], "observed": sorted(O)[:40]}
         kfid = classify(exp["tags"], d, missing, unexpected, exp)
-        if kfid is None and d != "ansi" and case["sql"] in ansi_ok and f"{d}:{st.kind}" in DIALECT_BLIND_SPOTS:
+        if d == "ansi" and kfid is not None and run_.kf_listed(kfid):
+            ansi_ok.add(case["sql"])  # ansi deviates only by a listed finding: still the referee for per-dialect blind spots
+        if d != "ansi" and case["sql"] in ansi_ok and f"{d}:{st.kind}" in DIALECT_BLIND_SPOTS:
             # the same text is analysed exactly under ansi: a per-dialect extractor blind spot (listed pair of dialect and statement kind)
             kfid = "KF-14e"
         run_.judge(b, "column_pairs_differ", det, kf_id=kfid)
